@@ -60,6 +60,7 @@ def run(P, R, tier):
     from rules import C13
     C13.fixed_taint(P, R, 'C17.a', None)
     zero_trip(P, R)
+    dtype_from_all_elements(P, R)
     from rules import common as _common2
     _common2.forward(P, R, 'C04', ['C04.a', 'C04.b', 'C04.f'], 'C17.c', 'cx never selects a missing/empty row: every row returned passed the exact test (no shortcut around it)', floor=4)
     from rules import common as _common
@@ -83,6 +84,29 @@ def run(P, R, tier):
             if k == 'orderings':
                 R.count('orderings', 0)
     R.floor('C17', 'inert-row obligations collected from the other checks', n, 40)
+
+
+def dtype_from_all_elements(P, R):
+    """C17.h: a missing element in the input of a fixed-width array constructor sends the data down the element-by-element path, where the dtype is
+    inferred from the elements.  The inference must look at EVERY non-missing element (promoting as it goes): taking the dtype of the first one and
+    stopping makes `[None, [1, 2], [1.5, 2.5]]` an int64 array that stores (1, 2) for the last point, while the same points without the None are float64 -
+    a missing element changes the other rows."""
+    f = P.func('spatialpandas.geometry.basefixed', 'GeometryFixedArray.__init__')
+    n = 0
+    for lp in astq.own_nodes(f, ast.For):
+        asg = [x for x in ast.walk(lp) if isinstance(x, ast.Assign) and any(isinstance(t, ast.Name) and 'dtype' in t.id for t in x.targets)
+               and any(isinstance(y, ast.Attribute) and y.attr in ('dtype', 'numpy_dtype') for y in ast.walk(x.value)) or
+               (isinstance(x, ast.Assign) and any(isinstance(t, ast.Name) and 'dtype' in t.id for t in x.targets) and isinstance(x.value, ast.Call)
+                and norm(x.value.func).split('.')[-1] in ('promote_types', 'result_type', 'find_common_type'))]
+        if not asg:
+            continue
+        n += 1
+        brk = [x for x in ast.walk(lp) if isinstance(x, ast.Break)]
+        promotes = any(isinstance(x.value, ast.Call) and norm(x.value.func).split('.')[-1] in ('promote_types', 'result_type', 'find_common_type') for x in asg if isinstance(x, ast.Assign))
+        R.check(not brk and promotes, 'C17.h', f, brk[0] if brk else lp, 'the dtype of an array built element by element is promoted over all non-missing elements',
+                'the dtype is taken from the first non-missing element only (`break`' + ('' if brk else ' missing, but no promotion') + '): a None in the input makes the other rows lose precision '
+                '([None, [1, 2], [1.5, 2.5]] stores (1, 2) for the last point)', construct='dtype inferred from every element')
+    R.floor('C17.h', 'dtype inference loops of the fixed-width constructor', n, 1)
 
 
 def zero_trip(P, R):
